@@ -59,3 +59,5 @@ Fixpoint chunk6 (l : list Z) : list (Z * Z * Z * Z * Z * Z) :=
   end.
 
 Definition nth_Z (n : nat) (l : list Z) : Z := nth n l 0.
+
+Definition bZ (b : bool) : Z := if b then 1 else 0.
